@@ -803,7 +803,11 @@ class GroupCoordinator(BaseCoordinator):
             if idle_time < self._max_poll_interval:
                 sleep_time = min(sleep_time, self._max_poll_interval - idle_time)
             else:
-                await self._maybe_leave_group()
+                try:
+                    await self._maybe_leave_group()
+                except asyncio.CancelledError:
+                    # Stopped (close() or a rejoin) while leaving the group
+                    break
 
         log.debug("Stopping heartbeat task")
 
